@@ -24,6 +24,10 @@ pub struct Params {
     pub log_delay: i8,
     pub one_step: bool,
     pub seed: u64,
+    /// the slave's host reports transmit timestamps only after the round trip (asynchronous
+    /// timestamp retrieval): every Delay_Resp is handled before its Delay_Req's timestamp
+    #[serde(default)]
+    pub late_tx_ts: bool,
 }
 
 pub struct Outcome {
@@ -122,6 +126,9 @@ pub fn simulate(p: &Params, horizon_s: f64) -> Outcome {
     let mi = sim.add_node(m.node, (p.seed % 1_000_000_000) as u64);
     let si = sim.add_node(s.node, ((p.seed >> 20) % 1_000_000_000) as u64);
     sim.one_step = vec![p.one_step, false];
+    if p.late_tx_ts {
+        sim.nodes[si].tx_ts_latency_ns = 2 * (p.delay_ns + p.jitter_ns) + 1_000_000;
+    }
     sim.add_link(vec![(mi, 0), (si, 0)], p.delay_ns, p.jitter_ns, 0.0);
     let bound = bound_ns(p);
     let tc = tc_s(p);
@@ -197,6 +204,7 @@ pub fn gen_params(rng: &mut StdRng, i: u64) -> Params {
         log_delay: [-3i8, -2, -1, 0, 1][rng.gen_range(0..5)],
         one_step: rng.gen_bool(0.4),
         seed: rng.gen(),
+        late_tx_ts: rng.gen_bool(0.2),
     }
 }
 
@@ -215,6 +223,9 @@ pub fn run_case(rep: &mut Report, p: &Params, hist: &mut Vec<f64>, conv: &mut Ve
         return;
     }
     rep.ev("closed_loop_run");
+    if p.late_tx_ts {
+        rep.ev("closed_loop_run_with_late_tx_timestamps");
+    }
     if let Ok(path) = std::env::var("VP_C02_DUMP") {
         use std::io::Write;
         if let Ok(mut f) = std::fs::OpenOptions::new().create(true).append(true).open(path) {
